@@ -214,7 +214,7 @@ VARIANT_SKIP_QUICK = ()
 # Only the checks whose rules are not written against the LP64 layout take part (the others say so in DESIGN 11.13).
 _STUBS = os.path.join(os.path.dirname(os.path.abspath(__file__)), "stubs", "ilp32")
 ILP32 = ("ilp32.", ["--target=armv7m-none-eabi", "-ffreestanding", "-isystem", _STUBS])
-ILP32_CHECKS = ("C08", "C14", "C16", "C17", "C18", "C19")
+ILP32_CHECKS = ("C08", "C12", "C13", "C14", "C16", "C17", "C18", "C19")
 
 
 def run_check(pid, runner, tier, seed):
@@ -241,7 +241,7 @@ def run_check(pid, runner, tier, seed):
             chk.assumptions.append("every rule is decided on three builds: the default one, -DNDEBUG (rule ids prefixed 'ndebug.': no verdict "
                                    "rests on an assert() that a release build compiles out) and -funsigned-char ('uchar.': plain char as on "
                                    "the ARM targets); an ILP32 ARM build ('ilp32.', freestanding against prototype-only libc headers) is added "
-                                   "for C08, C14, C16, C17, C18, C19 only - the other checks' rules assume the LP64 layout")
+                                   "for C08, C12, C13, C14, C16, C17, C18, C19 only - the other checks' rules assume the LP64 layout")
     except AnalysisError as e:
         chk.rule_filter, chk.rule_prefix = None, ""     # an imported rule set may have been active: never filter this
         chk.unknown("analysis", "engine", str(e))
